@@ -102,7 +102,8 @@ class Case:
             self.null_group = gi
         self.n_tasks = int(s.get("n_tasks", 3))
         y = C.make_target(rng, X, C.TARGET_KIND[dfn], n_tasks=self.n_tasks, ties=s.get("ties", True),
-                          noise=s.get("noise", 0.5), offset_scale=s.get("offset_scale"))
+                          noise=s.get("noise", 0.5), offset_scale=s.get("offset_scale"),
+                          censor_all=bool(s.get("censor_all", False)))
         if s.get("mirror_pairs") and C.TARGET_KIND[dfn] == "pm1":
             # half of the rows are copies of the other half with the opposite label: the logistic loss is then coercive
             # (log(1+e^z) + log(1+e^-z) >= |z|), so every composition, also one without any penalty that bounds the
